@@ -133,3 +133,72 @@ pub fn run_fidelity(seed: u64, runs: u64) -> FidelityReport {
     }
     rep
 }
+
+// ------------------------------------------------------------------------------------------
+// Probe for the lock model of the concurrent mode: with REAL threads and the REAL std RwLock
+// inside (the vendored) mmap-append, park a reader between the two read locks of
+// `Deref::deref`, let a second thread call `resize` (which queues for the write lock), release
+// the reader: if neither thread finishes within the time-out the recursive read really
+// dead-locks on this platform, as the controller's model says. The process cannot recover
+// from that, so the probe runs in its own process and reports through its exit code.
+
+static PROBE_STAGE: std::sync::atomic::AtomicUsize = std::sync::atomic::AtomicUsize::new(0);
+thread_local! {
+    static PROBE_ROLE: std::cell::Cell<u8> = const { std::cell::Cell::new(0) };
+}
+
+fn probe_hook(name: &'static str) {
+    use std::sync::atomic::Ordering::SeqCst;
+    let role = PROBE_ROLE.with(|r| r.get());
+    if role == 1 && name == "mmap:deref_between_reads" {
+        // reader: holds the read lock; tell the writer to go, wait until it is queued
+        PROBE_STAGE.store(1, SeqCst);
+        while PROBE_STAGE.load(SeqCst) < 2 {
+            std::thread::sleep(std::time::Duration::from_millis(1));
+        }
+        // give the writer time to really block inside write()
+        std::thread::sleep(std::time::Duration::from_millis(300));
+    }
+    if role == 2 && name == "mmap:resize_before_write" {
+        PROBE_STAGE.store(2, SeqCst);
+    }
+}
+
+/// exit code 0: both threads finished (no dead-lock on this platform); 7: dead-lock confirmed
+pub fn lock_model_probe() -> i32 {
+    use std::sync::atomic::Ordering::SeqCst;
+    let dir = scratch_root().join("lockprobe");
+    let _ = std::fs::create_dir_all(&dir);
+    let path = dir.join("map");
+    let file = std::fs::OpenOptions::new().read(true).write(true).create(true).truncate(true).open(&path).unwrap();
+    file.set_len(4096).unwrap();
+    let map = std::sync::Arc::new(unsafe { mmap_append::MmapAppend::new(&file, true).unwrap() });
+    mmap_append::verif_set_hook(Some(probe_hook));
+    let done = std::sync::Arc::new(std::sync::atomic::AtomicUsize::new(0));
+    let (m1, d1) = (map.clone(), done.clone());
+    let _reader = std::thread::spawn(move || {
+        PROBE_ROLE.with(|r| r.set(1));
+        let n = m1.len(); // Deref
+        let _ = n;
+        let _ = d1.fetch_add(1, SeqCst);
+    });
+    let (m2, d2) = (map.clone(), done.clone());
+    let _writer = std::thread::spawn(move || {
+        PROBE_ROLE.with(|r| r.set(2));
+        while PROBE_STAGE.load(SeqCst) < 1 {
+            std::thread::sleep(std::time::Duration::from_millis(1));
+        }
+        let _ = m2.resize(8192);
+        let _ = d2.fetch_add(1, SeqCst);
+    });
+    let t0 = std::time::Instant::now();
+    while t0.elapsed() < std::time::Duration::from_secs(3) {
+        if done.load(SeqCst) == 2 {
+            let _ = std::fs::remove_dir_all(&dir);
+            return 0;
+        }
+        std::thread::sleep(std::time::Duration::from_millis(10));
+    }
+    let _ = std::fs::remove_dir_all(&dir);
+    7
+}
